@@ -10,14 +10,14 @@ Definition w_resolve : bytes := Eval compute in bytes_of_string "resolve".
 Definition w_files : bytes := Eval compute in bytes_of_string "files".
 Definition w_file : bytes := Eval compute in bytes_of_string "file".
 Definition w_local : bytes := Eval compute in bytes_of_string "local".
-Definition o_ndots : bytes := Eval compute in bytes_of_string "ndots".
-Definition o_retrans : bytes := Eval compute in bytes_of_string "retrans".
-Definition o_timeout : bytes := Eval compute in bytes_of_string "timeout".
-Definition o_retry : bytes := Eval compute in bytes_of_string "retry".
-Definition o_attempts : bytes := Eval compute in bytes_of_string "attempts".
-Definition o_rotate : bytes := Eval compute in bytes_of_string "rotate".
-Definition o_usevc1 : bytes := Eval compute in bytes_of_string "use-vc".
-Definition o_usevc2 : bytes := Eval compute in bytes_of_string "usevc".
+Definition on_ndots : bytes := Eval compute in bytes_of_string "ndots".
+Definition on_retrans : bytes := Eval compute in bytes_of_string "retrans".
+Definition on_timeout : bytes := Eval compute in bytes_of_string "timeout".
+Definition on_retry : bytes := Eval compute in bytes_of_string "retry".
+Definition on_attempts : bytes := Eval compute in bytes_of_string "attempts".
+Definition on_rotate : bytes := Eval compute in bytes_of_string "rotate".
+Definition on_usevc1 : bytes := Eval compute in bytes_of_string "use-vc".
+Definition on_usevc2 : bytes := Eval compute in bytes_of_string "usevc".
 Definition s_scheme_sep : bytes := Eval compute in bytes_of_string "://".
 Definition s_tcpport_eq : bytes := Eval compute in bytes_of_string "tcpport=".
 Definition k_domain : bytes := Eval compute in bytes_of_string "domain".
